@@ -171,7 +171,7 @@ theorem sum_affine (x : List ℝ) (a b : ℝ) :
 theorem pearson_affine (x : List ℝ) (a b : ℝ) :
     pearson x (x.map (fun t => a * t + b)) = a * varN x / Real.sqrt (varN x * (a * a * varN x)) := by
   obtain ⟨h1, h2, h3⟩ := sum_affine x a b
-  rw [pearson_eq]
+  rw [pearson_eq _ _ (by simp)]
   simp only [lsum_map_pair]
   rw [h1, h2, h3]
   have hid : (x.map (fun t => t)).sum = x.sum := by simp
